@@ -17323,6 +17323,11 @@ func (p *parser) recordExport(loc logger.Loc, alias string, ref ast.Ref) {
 			[]logger.MsgData{p.tracker.MsgData(js_lexer.RangeOfIdentifier(p.source, name.AliasLoc),
 				fmt.Sprintf("The name %q was originally exported here:", alias))})
 	} else {
+		// If this symbol was merged (e.g. "export var x; var x"), use the symbol
+		// at the end of the linked list since that's the one parts are filed under
+		for p.symbols[ref.InnerIndex].Link != ast.InvalidRef {
+			ref = p.symbols[ref.InnerIndex].Link
+		}
 		p.namedExports[alias] = js_ast.NamedExport{AliasLoc: loc, Ref: ref}
 	}
 }
